@@ -466,17 +466,21 @@ def read_paths_case(rng, driver, rep):
     ops = []  # ("w", index, id) | ("c",)
     nid = 1
 
+    # the solution has 3 components, or 13 (a data frame then has columns solution_0 .. solution_12, whose alphabetical order is not the
+    # numerical one); component j >= 3 carries i + j
+    sold = rng.choice([SOLD, SOLD, 13])
+
     def enc(i):
-        return {"solution": np.array([i, i + 0.5, -i], dtype=dt), "objective": np.array(i, dtype=dt),
+        return {"solution": np.array([i, i + 0.5, -i] + [i + j for j in range(3, sold)], dtype=dt), "objective": np.array(i, dtype=dt),
                 "measures": None, "ev": np.array([i, i + 0.25], dtype=dt)}
     if kind == "store":
-        obj = ArrayStore({"solution": ((SOLD,), dt), "objective": ((), dt), "ev": ((2,), dt)}, cap)
+        obj = ArrayStore({"solution": ((sold,), dt), "objective": ((), dt), "ev": ((2,), dt)}, cap)
     elif kind == "grid":
         cap = 12
-        obj = GridArchive(solution_dim=SOLD, dims=[4, 3], ranges=[(0, 1), (0, 1)], dtype=dt, extra_fields={"ev": ((2,), dt)})
+        obj = GridArchive(solution_dim=sold, dims=[4, 3], ranges=[(0, 1), (0, 1)], dtype=dt, extra_fields={"ev": ((2,), dt)})
     else:
         cap = 6
-        obj = CVTArchive(solution_dim=SOLD, cells=6, ranges=[(0, 1), (0, 1)], dtype=dt, extra_fields={"ev": ((2,), dt)},
+        obj = CVTArchive(solution_dim=sold, cells=6, ranges=[(0, 1), (0, 1)], dtype=dt, extra_fields={"ev": ((2,), dt)},
                          custom_centroids=np.array([[0.1, 0.1], [0.5, 0.1], [0.9, 0.1], [0.1, 0.9], [0.5, 0.9], [0.9, 0.9]], dtype=dt))
     with warnings.catch_warnings():
         warnings.simplefilter("ignore")
@@ -504,7 +508,7 @@ def read_paths_case(rng, driver, rep):
         """all fields must carry the same id"""
         ids = set()
         s = np.asarray(vals["solution"], dtype=np.float64)
-        ids.add(int(s[0]) if (s[1] == s[0] + 0.5 and s[2] == -s[0]) else -1)
+        ids.add(int(s[0]) if (len(s) == sold and s[1] == s[0] + 0.5 and s[2] == -s[0] and all(s[j] == s[0] + j for j in range(3, sold))) else -1)
         o = float(vals["objective"])
         ids.add(int(o) if o == int(o) else -1)
         v = np.asarray(vals["ev"], dtype=np.float64)
